@@ -31,6 +31,7 @@ type CaseHist struct {
 	Paradigms []string   `json:"paradigms"` // per call, cycled
 	Fresh     []bool     `json:"fresh"`     // per resume, cycled: use a freshly compiled runnable
 	NoID      bool       `json:"noid,omitempty"`
+	Modifier  bool       `json:"modifier,omitempty"` // every resume carries a StateModifier (C11)
 }
 
 // addInterrupts decorates a spec (recursively) with interrupt points and rerun nodes.
@@ -159,6 +160,19 @@ func runHistory(c CaseHist) (*histRun, *vkit.Failure) {
 		var opts []compose.Option
 		if !c.NoID {
 			opts = append(opts, compose.WithCheckPointID("h1"))
+		}
+		if c.Modifier && callIdx > 0 {
+			opts = append(opts, compose.WithStateModifier(func(ctx context.Context, path compose.NodePath, state any) error {
+				if st, ok := state.(*gkit.GState); ok && st != nil {
+					env.StateMu.Lock()
+					if st.Count == nil {
+						st.Count = map[string]int{}
+					}
+					st.Count["mod:"+strings.Join(path.GetPath(), "/")]++
+					env.StateMu.Unlock()
+				}
+				return nil
+			}))
 		}
 		cg := CaseGraph{Spec: c.Spec, Input: in, Paradigm: rec.Paradigm}
 		out, rerr := runSpec(ctx, r, env, cg, opts...)
@@ -501,6 +515,21 @@ func checkHistory(c CaseHist, which string) (*vkit.Failure, vkit.Meta) {
 			if c.NoID {
 				return nil // nothing to resume
 			}
+			if c.Modifier && c.Spec.State {
+				// every resume applied the caller's modifier once; the edits must be in every later checkpoint
+				for _, cr := range h.calls {
+					if !cr.Interrupted || cr.Info == nil {
+						continue
+					}
+					st, ok := cr.Info.State.(*gkit.GState)
+					if !ok || st == nil {
+						return vkit.Failf("state-modifier-edits", "call %d: interrupt info carries no state of the expected type (%T)", cr.Idx, cr.Info.State)
+					}
+					if got := h.env.CountsOf(st)["mod:"]; got != cr.Idx {
+						return &vkit.Failure{Kind: "state-modifier-edits", Sig: "state-modifier-edits", Msg: fmt.Sprintf("call %d was preceded by %d resumes, each with a StateModifier that counts itself in the state; the state reported at this interrupt records %d applications", cr.Idx, cr.Idx, got)}
+					}
+				}
+			}
 			if !h.finished {
 				if last.Interrupted {
 					return vkit.Failf("history-does-not-complete", "still interrupted after %d calls (uninterrupted run takes %d node executions)", len(h.calls), len(benv.Execs()))
@@ -568,6 +597,14 @@ func checkHistory(c CaseHist, which string) (*vkit.Failure, vkit.Meta) {
 						}
 					}
 				}
+				mods := map[string]int{}
+				for k, v := range hc {
+					if strings.HasPrefix(k, "mod:") {
+						mods[k] = v
+						delete(hc, k)
+					}
+				}
+				_ = mods
 				if fmt.Sprint(sortedMap(bc)) != fmt.Sprint(sortedMap(hc)) {
 					return &vkit.Failure{Kind: "resume-state-differs", Sig: "resume-state-differs", Msg: fmt.Sprintf("state counters of graph %q after the interrupted history: %v, uninterrupted: %v", gp, sortedMap(hc), sortedMap(bc))}
 				}
@@ -690,5 +727,42 @@ func TestHistDump(t *testing.T) {
 			fmt.Printf("  ev call=%d %s %s in=%q out=%q\n", ev.Call, ev.Phase, ev.Node, vkit.Short(ev.In, 60), vkit.Short(ev.Out, 60))
 		}
 		return nil, vkit.Meta{}
+	})
+}
+
+func genHistMod(t *rapid.T) CaseHist {
+	c := genHist(t)
+	c.Modifier = true
+	c.NoID = false
+	c.Spec.State = true
+	return c
+}
+
+func TestC11Resume(t *testing.T) {
+	rec := vkit.NewRecorder("C11")
+	vkit.Prop(t, rec, genHistMod, func(c CaseHist) (*vkit.Failure, vkit.Meta) {
+		f, m := checkHistory(c, "C05")
+		if f != nil && vkit.Known("C05", f.Sig) {
+			// the history cannot be resumed because of a finding recorded for C05: nothing to judge here
+			m.Labels = append(m.Labels, "excluded:C05-known-finding")
+			f = nil
+		}
+		nt := false
+		for _, l := range m.Labels {
+			if strings.HasPrefix(l, "interrupts:") && l != "interrupts:0" {
+				nt = true
+			}
+		}
+		m.NonTrivial = nt
+		return f, m
+	})
+}
+
+func TestC11ResumeReplay(t *testing.T) {
+	vkit.Replay(t, "C11", func(c CaseHist) (*vkit.Failure, vkit.Meta) {
+		if !c.Modifier {
+			return nil, vkit.Meta{}
+		}
+		return checkHistory(c, "C05")
 	})
 }
